@@ -17,14 +17,16 @@ def hexVal (c : Char) : Option Nat :=
   else if 'A' ≤ c ∧ c ≤ 'F' then some (c.toNat - 55)
   else none
 
-def bytesOfHexChars : List Char → Option Bytes
-  | [] => some []
-  | a :: b :: rest => do
-    let x ← hexVal a
-    let y ← hexVal b
-    let r ← bytesOfHexChars rest
-    pure ((x * 16 + y).toUInt8 :: r)
-  | _ => none
+/-- tail-recursive: payloads of several hundred kilobytes arrive on one line -/
+def bytesOfHexCharsAux : List Char → List UInt8 → Option Bytes
+  | [], acc => some acc.reverse
+  | a :: b :: rest, acc =>
+    match hexVal a, hexVal b with
+    | some x, some y => bytesOfHexCharsAux rest ((x * 16 + y).toUInt8 :: acc)
+    | _, _ => none
+  | _, _ => none
+
+def bytesOfHexChars (cs : List Char) : Option Bytes := bytesOfHexCharsAux cs []
 
 /-- `-` stands for the empty byte string so that every token is non-empty -/
 def bytesOfHex (s : String) : Option Bytes :=
